@@ -580,6 +580,10 @@ def scorer_file(path, enc):
 cs = common.cstr
 
 
+def cf(x):
+    return "(%s)%%float" % common.cfloat(x)
+
+
 def cN(n):
     return "%d%%N" % n
 
@@ -615,7 +619,7 @@ def repr_table(floats):
             continue
         seen.add(k)
         out.append(p)
-    return clist(out, lambda p: cpair(common.cfloat(p), cs(repr(p))), "(float * str)")
+    return clist(out, lambda p: cpair(cf(p), cs(repr(p))), "(float * str)")
 
 
 def pfloat_table(text):
@@ -632,7 +636,7 @@ def pfloat_table(text):
 
 
 def c_pfloat_table(tbl):
-    return clist(tbl.items(), lambda kv: cpair(cs(kv[0]), copt(kv[1], common.cfloat)), "(str * option float)")
+    return clist(tbl.items(), lambda kv: cpair(cs(kv[0]), copt(kv[1], cf)), "(str * option float)")
 
 
 def c_file_case(text, enc):
@@ -642,7 +646,7 @@ def c_file_case(text, enc):
 
 
 def c_counts(counter):
-    return clist(counter.items(), lambda kv: cpair(cs(kv[0]), cN(kv[1])), "(str * N)")
+    return clist(counter.items(), lambda kv: cpair(cs(str(kv[0])), cN(kv[1])), "(str * N)")
 
 
 def c_lcounts(d):
